@@ -235,6 +235,10 @@ int xmp_test_module_from_callbacks(void *priv, struct xmp_callbacks callbacks,
 	return ret;
 }
 
+#ifdef LIBXMP_VERIF
+void (*libxmp_verif_pregate)(struct context_data *, int, int *) = NULL;
+#endif
+
 static int load_module(xmp_context opaque, HIO_HANDLE *h)
 {
 	struct context_data *ctx = (struct context_data *)opaque;
@@ -264,6 +268,14 @@ static int load_module(xmp_context opaque, HIO_HANDLE *h)
 		xmp_release_module(opaque);
 		return -XMP_ERROR_FORMAT;
 	}
+
+#ifdef LIBXMP_VERIF
+	/* Verification hook H1: lets a harness inspect or replace what the
+	 * loader produced before the sanity checks run. */
+	if (libxmp_verif_pregate != NULL) {
+		libxmp_verif_pregate(ctx, test_result, &load_result);
+	}
+#endif
 
 	if (load_result < 0) {
 		goto err_load;
